@@ -129,7 +129,7 @@ def plan(tier):
                 "40..400 nodes, from_file; scores: all 729 pairs of all seven matrices, every byte in both "
                 "positions, random pairs, self scores along words; is_word of both protein alphabets on every byte",
         "bounds": {"mc": "parser machine = set of derivations for all strings of length <= 6 (thorough 8) over "
-                         "( ) , : ; a 1 [ and the blank, and of length <= 5 (7) over : ; 1 0 . - e; print/parse round "
+                         "( ) , : ; a 1 [ and the blank, and of length <= 5 (6; 7 in NewickMC_float_len7.cfg) over : ; 1 0 . - e; print/parse round "
                          "trip for all trees of <= 3 (4) nodes over 4 names x 3 lengths; lookup machine on 60 bytes "
                          "around the table's edges in both positions (thorough: all 65536 pairs)",
                    "impl": "texts up to ~2000 bytes, <= 400 nodes, nesting <= 400 (the recursive-descent parser "
